@@ -297,3 +297,43 @@ def chart_from_str(strict: bool, which: int) -> bool:
         return list(ch.items()) == exp
     finally:
         xhlib.install_stub()
+
+
+MSD_ALPHABET = "#:;/\\\n aN"
+
+
+def chars_sm(text: str, strict: bool) -> bool:
+    """
+    pre: len(text) <= 3
+    pre: all(ch in MSD_ALPHABET for ch in text)
+    pre: not (len(text) > 0 and text[len(text) - 1] == chr(92))
+    post: _
+    """
+    # character level, tiny texts: loads() through the real lexer equals the documented rules applied to the tokenizer's
+    # own parameter stream (the tokenizer is the trusted base); texts ending in an unpaired backslash are excluded
+    from msdparser import parse_msd
+    xhlib.install_real()
+    try:
+        try:
+            stream = [tuple(p.components) for p in parse_msd(string=text, ignore_stray_text=not strict)]
+            stray = False
+        except MSDParserError:
+            stream, stray = None, True
+        try:
+            got = simfile.loads(text, strict=strict)
+        except MSDParserError:
+            return stray
+        except ValueError:
+            return (not stray) and spec_sm(stream) == "ValueError"
+        if stray:
+            return False
+        exp = spec_sm(stream)
+        if exp == "ValueError":
+            return False
+        items, charts = exp
+        is_ssc = bool(stream) and stream[0][0].upper() == "VERSION"
+        if is_ssc:
+            return type(got) is SSCSimfile
+        return type(got) is SMSimfile and list(got.items()) == items and len(got.charts) == len(charts)
+    finally:
+        xhlib.install_stub()
